@@ -56,13 +56,41 @@ Proof.
 Qed.
 
 Theorem kes_update_fails_iff : forall d b s n, length b = ksize d -> Z.of_nat n < total d ->
-  exists k, evolve d b s n = Some k /\ (update d k = None <-> Z.of_nat n = total d - 1).
+  exists k, evolve d b s n = Some k /\ (snd (update d k) = false <-> Z.of_nat n = total d - 1).
 Proof.
   intros d b s n Hb Hn. eexists. split; [apply evolve_closed; assumption|].
   cbn [update]. split.
   - intros H. destruct (Z.eq_dec (Z.of_nat n) (total d - 1)) as [E|E]; [exact E|].
     rewrite update_slice_step in H by lia. discriminate.
   - intros E. rewrite update_slice_last by lia. reflexivity.
+Qed.
+
+(* a refused update() leaves the WHOLE key — every buffer slot and the period counter —
+   exactly as it was; for every key state and period value, reachable or not *)
+Theorem kes_update_error_keeps_state : forall d k k', update d k = (k', false) -> k' = k.
+Proof. exact update_err_unchanged. Qed.
+
+(* at the last period every further update() call is refused and the key stays the
+   key of the last period: same buffer, same period, same public key, and it still signs *)
+Theorem kes_refused_updates_keep_last_key : forall d b s j m, length b = ksize d ->
+  exists k, evolve d b s (Z.to_nat (total d - 1)) = Some k /\
+    update_calls d j k = k /\ snd (update d (update_calls d j k)) = false /\
+    get_period (update_calls d j k) = total d - 1 /\
+    verify_sum d (sign_sum_key d (update_calls d j k) m) (total d - 1) (pk_of d b s) m = true /\
+    verify_cmp d (sign_cmp_key d (update_calls d j k) m) (total d - 1) (pk_of d b s) m = true.
+Proof.
+  intros d b s j m Hb. pose proof (total_pos d) as Hp.
+  assert (Hn : Z.of_nat (Z.to_nat (total d - 1)) < total d) by lia.
+  eexists. split; [apply evolve_closed; assumption|].
+  rewrite Z2Nat.id by lia.
+  set (k := (key_at d s (total d - 1), total d - 1)).
+  assert (Hr : snd (update d k) = false).
+  { unfold k. cbn [update]. rewrite update_slice_last by lia. reflexivity. }
+  destruct (update_calls_refused d k Hr j) as [E1 E2]. rewrite E1.
+  split; [reflexivity|]. split; [rewrite E1 in E2; exact E2|]. split; [reflexivity|].
+  rewrite pk_of_closed by assumption. unfold sign_sum_key, sign_cmp_key, verify_cmp, k.
+  cbn [key_buf get_period fst snd].
+  split; [apply sum_verify_ok; lia|]. rewrite cmp_recompute_ok by lia. apply term_eqb_refl.
 Qed.
 
 (* so exactly 2^d - 1 updates succeed *)
@@ -114,8 +142,8 @@ Example kes_example :
                  Zero; pk_tree 2 (L (Master 7)); pk_tree 2 (R (Master 7))] /\
     verify_sum 3 (sign_sum_key 3 k 42) 5 (pk_of 3 b (Master 7)) 42 = true /\
     verify_cmp 3 (sign_cmp_key 3 k 42) 4 (pk_of 3 b (Master 7)) 42 = false /\
-    update 3 k <> None.
+    snd (update 3 k) = true.
 Proof.
   cbv zeta. split; [reflexivity|]. split; [reflexivity|]. eexists. split; [vm_compute; reflexivity|].
-  repeat split; try (vm_compute; reflexivity). vm_compute. discriminate.
+  repeat split; vm_compute; reflexivity.
 Qed.
